@@ -999,7 +999,7 @@ class Sandbox:
         """
         self.raw_output += raw_output
         context.output = raw_output
-        if self.raw_output:
+        if raw_output:
             lines = raw_output.rstrip().split("\n")
             lines = [line.rstrip() for line in lines]
             self.output.extend(lines)
